@@ -288,6 +288,74 @@ def make_circuit_forms_harness():
     return harness
 
 
+SUB_FORMS = ["[R]", "[(RC)(RC)]", "([RC][RL])", "[R(RC)]", "[[RC]]"]       # (a single-item parallel can only be built directly)
+
+
+def _sub(form: str):
+    """a fresh sub-circuit of the given shape, with binary-exact parameter values"""
+    from pyimpspec.circuit.series import Series
+    from pyimpspec.circuit.parallel import Parallel
+    from pyimpspec.circuit.resistor import Resistor
+    from pyimpspec.circuit.capacitor import Capacitor
+    from pyimpspec.circuit.inductor import Inductor
+    R, C, L = (lambda v: Resistor(R=v)), (lambda v: Capacitor(C=v)), (lambda v: Inductor(L=v))
+    return {
+        "[R]": lambda: Series([R(2.0)]),
+        "[(RC)(RC)]": lambda: Series([Parallel([R(3.0), C(0.5)]), Parallel([R(1.5), C(0.25)])]),
+        "([RC][RL])": lambda: Parallel([Series([R(7.0), C(0.125)]), Series([R(40.0), L(0.5)])]),
+        "[R(RC)]": lambda: Series([R(5.0), Parallel([R(3.0), C(0.5)])]),
+        "[[RC]]": lambda: Series([Series([R(6.0), C(2.0)])]),
+    }[form]()
+
+
+def make_routes_harness():
+    """a circuit with a container element has the same impedance whether it is built from objects, assembled with the
+    CircuitBuilder (which goes through the text form) or parsed from its own serialisation -- for every frequency"""
+    def harness(eng):
+        from pyimpspec import Circuit, CircuitBuilder, parse_cdc
+        from pyimpspec.circuit.series import Series
+        from pyimpspec.circuit.resistor import Resistor
+        from pyimpspec.circuit.registry import get_elements
+        eng.div_zero_policy = "assume"
+        Tlm = get_elements(private=True)["Tlm"]
+        keys = ["X_1", "X_2", "Z_A", "Z_B", "Zeta"]
+        which = eng.choice(len(keys), "key")
+        form = SUB_FORMS[eng.choice(len(SUB_FORMS), "form")]
+
+        def tlm():
+            subs = {"X_1": _sub("[R]"), "X_2": Series([]), "Z_A": None, "Z_B": None, "Zeta": _sub("[[RC]]")}
+            subs[keys[which]] = _sub(form)
+            t = Tlm(**subs)
+            t.set_values(L=0.5)
+            return t
+        f = eng.real("f", npy=True)
+        eng.assume(f > 0)
+        farr = mk_array(eng, [f])
+        direct = Circuit(Series([Resistor(R=8.0), tlm()]))
+        ok, Zd = call(direct.get_impedances, farr)
+        if not ok:
+            raise PathAbort("the directly built circuit cannot be evaluated: %r" % (Zd,))
+        routes = {}
+        with CircuitBuilder() as b:
+            b += Resistor(R=8.0)
+            b += tlm()
+        routes["builder"] = lambda: b.to_circuit()
+        routes["serialise+parse"] = lambda: parse_cdc(direct.serialize())
+        routes["to_string(12)+parse"] = lambda: parse_cdc(direct.to_string(12))
+        for name, make in routes.items():
+            ok, c = call(make)
+            eng.check(ok, "routes:every construction route yields a circuit", lambda: "%s: %r" % (name, c))
+            if not ok:
+                continue
+            ok, Z = call(c.get_impedances, farr)
+            eng.check(ok, "routes:every construction route yields a circuit that can be evaluated", lambda: "%s (%s=%s): %r" % (name, keys[which], form, Z))
+            if ok:
+                eng.check(same(Z.flat[0], Zd.flat[0]), "routes:the impedance does not depend on how the circuit was built",
+                          lambda: "%s, %s=%s" % (name, keys[which], form))
+        eng.reached("routes")
+    return harness
+
+
 def obligations(tier: str):
     from sx.runner import Obligation
     import pyimpspec.circuit.series as series
@@ -322,6 +390,11 @@ def obligations(tier: str):
     for k in ("S", "P"):
         obs.append(Obligation("dispatch.%s" % k, make_dispatch_harness(k), bounds="%s over {element, container element, nested connection}" % k,
                               functions=funcs, expect_reach=["law"]))
+    import pyimpspec.circuit.circuit_builder as cb
+    obs.append(Obligation("routes", make_routes_harness(), bounds="R + general transmission line whose sub-circuit X_1|X_2|Z_A|Z_B|Zeta is one of %d shapes (incl. connections only); "
+                          "objects vs CircuitBuilder vs serialise/parse; binary-exact parameter values, symbolic frequency" % len(SUB_FORMS),
+                          functions=funcs + [cb.CircuitBuilder.to_circuit, cb.CircuitBuilder._to_string, base.Container.to_string],
+                          stubs=["non-integer powers, sqrt, coth/tanh are uninterpreted with eager congruence"], expect_reach=["routes"], mode="fresh"))
     obs.append(Obligation("circuit_forms", make_circuit_forms_harness(), bounds="Circuit(Series|Parallel|Element|list of elements)",
                           functions=funcs, expect_reach=["law"]))
     for o in obs:
@@ -341,7 +414,7 @@ ASSUMPTIONS = [
     "floats as reals; positive finite frequencies",
 ]
 OUTSIDE = ["more than 3 (4) leaves / nesting deeper than 2 (3) / more than 2 (3) frequencies", "f = 0 and f = inf (sympy limits)",
-           "builder and parser construction (structural equality is decided under C03)"]
+           "builder and parser construction beyond the container shapes of the routes obligation (structural equality is decided under C03)"]
 
 
 def replay(obligation: str, witness):
